@@ -555,6 +555,11 @@ static void step(struct event_base *b)
     } while (pend > 0 && !broke && ++guard < 100000);
     if (pend > 0 && !broke)
         sim_note("STALL pending=%d", pend);
+    /* a few more passes with the clock standing still: work that a handler deferred to "the next pass of the
+     * loop" (a zero-timeout event, an activated event) belongs to this step as well */
+    loop_once(b);
+    loop_once(b);
+    loop_once(b);
     loop_once(b);
 }
 
@@ -584,6 +589,20 @@ static void feed(struct event_base *b, const char *buf, size_t n)
     step(b);
 }
 
+/* File times are part of the simulated world too: whatever the controller wrote last carries the simulated
+ * wall-clock time of the moment the operator signals (the kernel would have stamped it with the real time of
+ * day, which no seed controls).  A daemon that looks at the file's time stamp sees simulated time. */
+static const char *conf_path;
+static void stamp_conf(void)
+{
+    struct timespec ts[2];
+    if (!conf_path)
+        return;
+    ts[0].tv_sec = ts[1].tv_sec = (mono_ns + wall_off) / 1000000000LL;
+    ts[0].tv_nsec = ts[1].tv_nsec = (mono_ns + wall_off) % 1000000000LL;
+    utimensat(AT_FDCWD, conf_path, ts, 0);
+}
+
 int event_base_dispatch(struct event_base *b)
 {
     char hdr[4096];
@@ -608,12 +627,14 @@ int event_base_dispatch(struct event_base *b)
         } else if (!strncmp(hdr, "SIG ", 4)) {
             int sig = !strncmp(hdr + 4, "HUP", 3) ? SIGHUP : SIGUSR1;
             int cnt = atoi(hdr + 8);
+            stamp_conf();
             do {
                 raise(sig);
             } while (--cnt > 0);
             step(b);
         } else if (!strncmp(hdr, "RAISE ", 6)) {
             /* signal now, but do not let the loop run yet */
+            stamp_conf();
             raise(!strncmp(hdr + 6, "HUP", 3) ? SIGHUP : SIGUSR1);
         } else if (!strncmp(hdr, "RDFAULT ", 8)) {
             rdfault_errno = !strncmp(hdr + 8, "EINTR", 5) ? EINTR : EAGAIN;
@@ -715,6 +736,8 @@ int main(int argc, char **argv)
     av[ac++] = "-n";
     av[ac++] = "-f";
     av[ac++] = argv[1];
+    conf_path = argv[1];
+    stamp_conf();
     if (argc > 2 && ac < 7)
         av[ac++] = argv[2];
     av[ac] = NULL;
